@@ -349,3 +349,26 @@ func distinctKeys(obls []Obligation) int {
 	}
 	return len(m)
 }
+
+// borrowRule runs another property's rule set on a scratch report and takes over the obligations of one
+// of its rules under a name of this property (for rules that are woven into a larger check function).
+func borrowRule(p *Program, r *Report, from func(*Program, *Report), srcRule, dstRule string) {
+	saved := r.curRule
+	defer func() { r.curRule = saved }()
+	sub := NewReport(r.Prop, r.Config)
+	from(p, sub)
+	for _, ri := range sub.Rules {
+		if ri.Name == srcRule {
+			r.Rule(dstRule, ri.Engine, ri.What, ri.Floor)
+		}
+	}
+	if r.curRule == nil || r.curRule.Name != dstRule {
+		r.Rule(dstRule, "borrowed", "rule "+srcRule+" not found in its check", 1)
+		return
+	}
+	for _, o := range sub.Obls {
+		if o.Rule == srcRule {
+			r.add(o.Status, o.Construct, o.Pos, o.Detail)
+		}
+	}
+}
